@@ -221,6 +221,15 @@ int dl_write_range(zckDL *dl, const char *at, size_t length) {
                               SEEK_SET))
                     return 0;
                 dl->range->index.current = chk->next;
+                /* A chunk that stores no bytes is complete as soon as it is
+                 * selected: verify it now and look for the chunk that really
+                 * starts at this position (returning here would drop the rest
+                 * of the buffer, or report an error when nothing was written) */
+                if(dl->write_in_chunk == 0) {
+                    if(!set_chunk_valid(dl))
+                        return 0;
+                    continue;
+                }
                 chk = NULL;
                 tgt_chk = NULL;
                 break;
